@@ -76,6 +76,10 @@ def instantiate(case: dict, rng: random.Random, supported: dict[str, set[str]]) 
         if needs_refresh:
             q.append('depth=30')
             duration = 30 + 16 * (case['nth'] + 1)
+            # with and without MPD@minimumUpdatePeriod (mup=-1 omits it): the cross-refresh checks must not depend on it
+            mup = rng.choice(['', '', 'mup=-1', 'mup=4'])
+            if mup and not patch:
+                q.append(mup)
         elif rng.random() < 0.3:
             q.append(f'depth={rng.choice([30, 40, 120])}')
     return {'tmpl': tmpl, 'mode': mode, 'query': '&'.join(q), 'encrypted': bool(enc), 'duration': duration,
